@@ -1,4 +1,5 @@
 """C18 — token positions exact, indentation balanced (E2 MIR->z3 kernels + E1 Kani harnesses)."""
+import os
 import re
 import z3
 
@@ -495,6 +496,92 @@ def ob_caret(run, mir, rp):
         ob.inconclusive(f"unsupported: {e}")
 
 
+MNEMONIC = {"comma": ",", "colon": ":", "lparen": "(", "rparen": ")", "lbrack": "[", "rbrack": "]", "lbrace": "{",
+            "rbrace": "}", "bar": "|", "dot": ".", "lt": "<", "gt": ">", "plus": "+", "minus": "-", "star": "*",
+            "slash": "/", "bslash": "\\", "caret": "^", "eq": "=", "bang": "!", "question": "?", "space": " ",
+            "nl": "\n", "cr": "\r"}
+
+
+def step_native(rp, c0, rest, ttl, col):
+    """One real into_tokens step; property-level expectations for a fixed-width token start."""
+    st, out = rp.req("step", common.hexs(c0), common.hexs(rest), 1, 1, 1 if ttl else 0, 1, col, 0)
+    if st == "ERR":
+        return None
+    if st != "OK":
+        return f"{st}: {out[:100]}"
+    rows = out.split("\n")
+    consumed, pl, pc, cur2, li2, ttl2, nnl2 = (int(x) for x in rows[0].split("\t"))
+    if consumed < 1:
+        return "no progress"
+    text = (c0 + rest)[:consumed]
+    toks = [r.split("\t") for r in rows[1:]]
+    if c0 in " \n\r":
+        want = (2, 1) if "\n" in text else (1, col + 1)
+        if (pl, pc) != want or toks:
+            return f"layout character {c0!r}: caret ({pl},{pc}), expected {want}, tokens {toks}"
+        return None
+    if len(toks) != 1:
+        return f"{len(toks)} tokens for {text!r}"
+    t = toks[0]
+    import binascii
+    spelled = binascii.unhexlify(t[1]).decode() if t[1] else ""
+    if spelled != text:
+        return f"step on {c0 + rest!r} consumed {text!r} but produced token {t[0]} spelled {spelled!r}"
+    if (int(t[2]), int(t[3]), int(t[4]), int(t[5])) != (1, col, 1, col + consumed) or (pl, pc) != (1, col + consumed):
+        return f"token {t[0]} span ({t[2]},{t[3]})-({t[4]},{t[5]}), caret after ({pl},{pc}); consumed {consumed} from column {col}"
+    return None
+
+
+def kani_step_replay(rp):
+    def f(name, failed, values):
+        m = re.match(r"step(\d)_(\w+)$", name)
+        if not m:
+            return {"reproduced": False, "detail": "no native replay for this harness"}
+        la, c0 = int(m.group(1)), MNEMONIC[m.group(2)]
+        cands = []
+        if values:
+            flat = [v for v in values]
+            try:
+                if len(flat) >= la + 3 and all(len(x) == 1 for x in flat[:la]):
+                    bs = [x[0] for x in flat[:la]]
+                    rest = flat[la:]
+                else:
+                    bs = flat[0][:la]
+                    rest = flat[1:]
+                n = int.from_bytes(bytes(rest[0]), "little")
+                ttl = bool(rest[1][0])
+                col = int.from_bytes(bytes(rest[2]), "little")
+                cands.append(("".join(chr(b) for b in bs[:n]), ttl, col))
+            except Exception:
+                pass
+        # fall back to a small systematic window (the harness's own domain, sampled)
+        for a in "=<>:./-x 1\n":
+            for b in "=x >":
+                cands.append((a + b, False, 1))
+                cands.append((a, True, 7))
+        cands.append(("", False, 1))
+        for rest, ttl, col in cands:
+            why = step_native(rp, c0, rest, ttl, col)
+            if why:
+                return {"reproduced": True, "role": f"step-advance:first-char={c0!r}", "detail": f"{c0 + rest!r} at column {col}: {why}",
+                        "input": c0 + rest, "column": col}
+        return {"reproduced": False, "detail": f"{len(cands)} native steps from {c0!r} behave as required"}
+    return f
+
+
+def kani_part(run, rp, tier, quick_set):
+    import e1
+    names = list(quick_set) + ["state_token_nl", "state_space", "table_long_names"]
+    if tier == "thorough":
+        fam = e1.kani_runner.FAMILIES
+        names = fam["step2"] + fam["step3"] + fam["step_other"] + fam["state"] + fam["state_order_quick"] + fam["table"]
+    descs = {"step": "one real lexer step from this first character over a symbolic look-ahead window: exactly one token, span = characters consumed, caret advanced by exactly those characters, kind = longest canonical spelling, progress, no panic",
+             "state": "one State method from a symbolic state: result length/content and state afterwards",
+             "table": "name table against the documented keyword / type-name list"}
+    e1.run(run, names, lambda n: descs[n.split("_")[0][:5].rstrip("23")] if n.split("_")[0][:5].rstrip("23") in descs else descs["state"],
+           kani_step_replay(rp))
+
+
 def run(run):
     mir = e2.load_mir(run)
     rp = common.Replay()
@@ -511,4 +598,8 @@ def run(run):
     ob_balance(run, mir, rp, summaries, misc, run.tier)
     ob_lex_new(run, mir, rp)
     ob_caret(run, mir, rp)
+    if os.environ.get("VERIF_NO_KANI") != "1":
+        import e1
+        kani_part(run, rp, run.tier, e1.QUICK_A)
+        run.bounds["kani"] = "look-ahead 2 bytes (quick: 8 token starts; thorough: all 24 starts, look-ahead 2 and 3), ASCII, column <= 1000, indentation <= 13"
     rp.close()
